@@ -360,6 +360,21 @@ class PolicyGen:
             groups.append(dict(action=self.action(), names=list(names_all), nwc=[]))
             if rng.random() < 0.5:
                 groups.append(dict(action=self.action(), names=rng.sample(names_all, 3), nwc=[]))
+        elif kind == "value_list":
+            # one syscall allowed for a LIST OF VALUES of one argument: 4..12 single-Equal alternatives whose values differ in
+            # their high words, their low words or both
+            nm = rng.choice(names_all)
+            arg = rng.randint(0, 5)
+            pool = [3, 4, 5, M64, M32, 1 << 32, (1 << 32) | 3, (3 << 32) | 3, (3 << 32) | 4, 0, 1 << 63, (M32 << 32) | 5, 0x80000000, (1 << 32) - 2]
+            vals = rng.sample(pool, rng.randint(4, 12))
+            if rng.random() < 0.5:
+                vals[0] = rng.choice([3, 4, 5, 0])          # a small value first
+            op = "Eq" if rng.random() < 0.8 else rng.choice(OPS)
+            nwc = [dict(name=nm, conds=[(arg, op, v)]) for v in vals]
+            if rng.random() < 0.3:
+                nm2 = rng.choice(names_all)
+                nwc += [dict(name=nm2, conds=[(arg, "Eq", v)]) for v in rng.sample(pool, 4)]
+            groups.append(dict(action=self.action(), names=rng.sample(names_all, rng.randint(0, 2)), nwc=nwc))
         elif kind == "pair_cond":
             # two (sometimes three) single-condition alternatives of ONE syscall, adjacent, same argument, same operation,
             # related operands (one bit apart, disjoint masks, sub-mask, neighbours)
@@ -454,7 +469,23 @@ class PolicyGen:
                     # same list again, the same conditions in another order, one operand changed - before or after it
                     base = rng.choice(nwc)
                     bc = list(base["conds"])
-                    how = rng.choice(["subset", "subset", "superset", "same", "permuted", "one_changed"])
+                    how = rng.choice(["subset", "subset", "superset", "same", "permuted", "one_changed", "shifted", "shifted", "extended"])
+                    if how == "extended":
+                        # the same list with more conditions behind it, placed right behind it (a longer window of the same array)
+                        rel = bc + [self.cond() for _j in range(rng.randint(1, 3))]
+                        nwc.insert(nwc.index(base) + 1, dict(name=base["name"], conds=rel))
+                        groups.append(dict(action=self.action(), names=names, nwc=nwc))
+                        continue
+                    if how == "shifted" and len(bc) >= 2:
+                        # a window shifted by one or two: the tail of the list followed by new conditions, placed right behind
+                        # it (a caller may have carved both out of one array, overlapping) - arguments not in ascending order
+                        k = rng.randint(1, min(2, len(bc) - 1))
+                        rel = bc[k:] + [(rng.randint(0, max(0, min(c[0] for c in bc if c[0] <= 5) if any(c[0] <= 5 for c in bc) else 0)), rng.choice(OPS), self.operand()) for _j in range(k)]
+                        nwc.insert(nwc.index(base) + 1, dict(name=base["name"], conds=rel))
+                        groups.append(dict(action=self.action(), names=names, nwc=nwc))
+                        continue
+                    if how == "shifted":
+                        how = "same"
                     if how == "subset":
                         keep = rng.randint(1, max(1, len(bc) - 1))
                         rel = [bc[j] for j in sorted(rng.sample(range(len(bc)), min(keep, len(bc))))]
@@ -504,8 +535,34 @@ class PolicyGen:
         g = rng.choice(p2["groups"])
         used = set(g["names"]) | set(w["name"] for w in g["nwc"])
         free = [n for n in names_all if n not in used]
-        how = rng.choice(["action", "add_name", "drop_name", "operand", "add_cond_entry", "swap_groups"])
-        if how == "action":
+        how = rng.choice(["action", "add_name", "drop_name", "operand", "add_cond_entry", "swap_groups", "operand_half", "operand_half", "cond_op", "rename"])
+        if how in ("operand_half", "cond_op", "rename") and not any(gg["nwc"] for gg in p2["groups"]) and how != "rename":
+            how = "action"
+        if how in ("operand_half", "cond_op"):
+            # the smallest possible edit of a condition: only the high half, only the low half or a single bit of its operand
+            # changes, or only its operation - everything else (shape, names, counts, the other half) stays
+            g = rng.choice([gg for gg in p2["groups"] if gg["nwc"]])
+            w = rng.choice(g["nwc"])
+            j = rng.randrange(len(w["conds"]))
+            (a, o, v) = w["conds"][j]
+            w["conds"] = list(w["conds"])
+            if how == "cond_op":
+                w["conds"][j] = (a, rng.choice([x for x in OPS if x != o]), v)
+            else:
+                v2 = rng.choice([v ^ (1 << 32), v ^ (1 << 63), (v & M32) | (rng.getrandbits(32) << 32), ((v >> 32) << 32) | rng.getrandbits(32), v ^ 1,
+                                 (v + (1 << 32)) & M64, v ^ (1 << rng.randint(32, 63))])
+                w["conds"][j] = (a, o, v2 if v2 != v else v ^ (1 << 40))
+        elif how == "rename" and (g["names"] or g["nwc"]) and free:
+            # one name replaced by another (same counts everywhere)
+            if g["names"] and (not g["nwc"] or rng.random() < 0.5):
+                g["names"][rng.randrange(len(g["names"]))] = rng.choice(free)
+            else:
+                old = rng.choice(g["nwc"])["name"]
+                new = rng.choice(free)
+                for w in g["nwc"]:
+                    if w["name"] == old:
+                        w["name"] = new
+        elif how == "action":
             g["action"] = rng.choice([a for a in self.consts["named"] if a != g["action"]])
         elif how == "add_name" and free:
             g["names"].append(rng.choice(free))
@@ -542,6 +599,14 @@ class PolicyGen:
     DEFECTS = ["default_unnamed", "no_groups", "unknown_name", "unknown_cond_name", "dup_name", "cond_uncond",
                "argidx", "badop", "empty_conds", "argidx_and_badop"]
 
+    def bpos(self, n, lo=0):
+        """a position in lo..n: half of the time one of the boundary positions (start, end, powers of two and their neighbours)"""
+        rng = self.rng
+        cand = [x for x in (0, 1, n, n - 1, 5, 6, 7, 8, 15, 16, 17, 31, 32, 33, 63, 64, 65, 127, 128, 129, 255, 256, 257) if lo <= x <= n]
+        if cand and rng.random() < 0.5:
+            return rng.choice(cand)
+        return rng.randint(lo, n) if n >= lo else lo
+
     def inject(self, pol, defect, names_all):
         rng = self.rng
         pol["defect"] = defect
@@ -556,6 +621,11 @@ class PolicyGen:
             groups.append(dict(action=self.action(), names=[], nwc=[]))
         g = rng.choice(groups)
         bogus = rng.choice(["", "nosuchcall", "READ", "read ", "exit\x00", "open\n", "\xff\xfe", "%d%s", "x32_read", "getpid2"])
+        # names that are syscalls of OTHER architectures only
+        here = set(names_all)
+        foreign = sorted(set(s2 for a2 in self.arches.values() for (_, s2) in a2["table"]) - here)
+        if foreign and rng.random() < 0.35:
+            bogus = rng.choice(foreign)
         if defect == "unknown_name":
             if rng.random() < 0.3:
                 zero = min(self.arches[pol["arch"]]["table"])[1]
@@ -572,21 +642,31 @@ class PolicyGen:
         elif defect == "dup_name":
             if not g["names"]:
                 g["names"].append(rng.choice(names_all))
-            nm = rng.choice(g["names"])
-            g["names"].insert(rng.randint(0, len(g["names"])), nm)
+            if len(g["names"]) < 70 and rng.random() < 0.25:
+                # a long list: the duplicated name sits at a boundary position of it
+                extra = [n for n in names_all if n not in g["names"] and all(w["name"] != n for w in g["nwc"])]
+                g["names"] += rng.sample(extra, min(len(extra), rng.choice([60, 64, 65, 70, 130, 260]) - len(g["names"])))
+            nm = g["names"][self.bpos(len(g["names"]) - 1)]
+            g["names"].insert(self.bpos(len(g["names"])), nm)
         elif defect == "cond_uncond":
             if not g["names"]:
                 cand = [n for n in names_all if all(w["name"] != n for w in g["nwc"])]
                 g["names"].append(rng.choice(cand))
-            nm = rng.choice(g["names"])
-            g["nwc"].insert(rng.randint(0, len(g["nwc"])), dict(name=nm, conds=[self.cond()]))
+            if len(g["names"]) < 70 and rng.random() < 0.25:
+                extra = [n for n in names_all if n not in g["names"] and all(w["name"] != n for w in g["nwc"])]
+                g["names"] += rng.sample(extra, min(len(extra), rng.choice([60, 64, 65, 70, 130, 260]) - len(g["names"])))
+            nm = g["names"][self.bpos(len(g["names"]) - 1)]
+            g["nwc"].insert(self.bpos(len(g["nwc"])), dict(name=nm, conds=[self.cond()]))
         elif defect in ("argidx", "badop", "argidx_and_badop"):
             if not g["nwc"]:
                 cand = [n for n in names_all if n not in g["names"]]
                 g["nwc"].append(dict(name=rng.choice(cand), conds=[self.cond()]))
-            w = rng.choice(g["nwc"])
+            w = g["nwc"][self.bpos(len(g["nwc"]) - 1)]
             w["conds"] = list(w["conds"])
-            w["conds"].insert(rng.randint(0, len(w["conds"])), self.cond(bad={"argidx": "argidx", "badop": "op"}.get(defect, "both")))
+            if rng.random() < 0.3:
+                # a long list: the defective condition sits behind several valid ones
+                w["conds"] += [self.cond() for _ in range(rng.choice([5, 6, 7, 8, 15, 16, 31, 64]))]
+            w["conds"].insert(self.bpos(len(w["conds"])), self.cond(bad={"argidx": "argidx", "badop": "op"}.get(defect, "both")))
         elif defect == "empty_conds":
             cand = [n for n in names_all if n not in g["names"]]
             g["nwc"].insert(rng.randint(0, len(g["nwc"])), dict(name=rng.choice(cand), conds=[]))
